@@ -29,7 +29,28 @@ def HoldsStore (cfg : Cfg) : Prop :=
 def HoldsS (cfg : Cfg) : Prop :=
   ∀ (h : List MOp) (q : Query), bucketRouteS cfg (runB cfg h) q = scanRoute cfg (runB cfg h).store q
 
-def Holds (cfg : Cfg) : Prop := HoldsStore cfg ∧ HoldsS cfg
+def recA (k : String) (v : Int) : Rec :=
+  { key := k, body := some (.map [("a", .int v)]), created := 1, updated := 0, expire := 0 }
+def qA1 : Query :=
+  { slot := .key, asc := true, from_ := 0, limit := 0, fromT := none, toT := none, maxResults := 0,
+    filter := some (.mk false [{ path := [.field "a"], op := .eq, cv := .i64 1, strVals := [], intVals := [], label := "" }] []) }
+
+/-- the Save-order witness: the Save of a new key `k2` is cut in two by a whole build of the bucket of
+    `a` (publish + snapshot between the halves, build + drain after): whichever half comes first in the
+    code, the bucket must end up with `k2`. -/
+def saveWitnessOk (cfg : Cfg) : Bool :=
+  let p : Path := [.field "a"]
+  let r := recA "k2" 1
+  let st0 := runB cfg [.put (recA "k1" 1)]
+  let st1 := if cfg.bucketNotifyAfterAdd then stepPutStore st0 r else stepPutNotify st0 r
+  let st2 := [MOp.beginBuild p, .snapshot p].foldl (stepB cfg) st1
+  let st3 := if cfg.bucketNotifyAfterAdd then stepPutNotify st2 r else stepPutStore st2 r
+  let st4 := [MOp.build p, .drain p].foldl (stepB cfg) st3
+  bucketRouteS cfg st4 qA1 == scanRoute cfg st4.store qA1
+
+def HoldsSave (cfg : Cfg) : Prop := saveWitnessOk cfg = true
+
+def Holds (cfg : Cfg) : Prop := HoldsStore cfg ∧ HoldsS cfg ∧ HoldsSave cfg
 
 def keysOf (l : List Item) : List String := l.map (·.1)
 
@@ -165,7 +186,7 @@ def routesGoodB (cfg : Cfg) : Bool :=
 def goodStoreB (cfg : Cfg) : Bool := legGoodB cfg && routesGoodB cfg
 
 /-- all facts sound -/
-def goodB (cfg : Cfg) : Bool := goodStoreB cfg && trackGoodB cfg
+def goodB (cfg : Cfg) : Bool := goodStoreB cfg && trackGoodB cfg && saveWitnessOk cfg
 
 /-- **Full theorem (repaired facts)**: `paging_agree` and `labels_agree` together — same records,
     same order, same labels, for every store and every query. -/
@@ -224,7 +245,7 @@ theorem holdsS_of (cfg : Cfg) (hs : HoldsStore cfg) (ht : trackGoodB cfg = true)
 
 theorem holds_of_good (cfg : Cfg) (h : goodB cfg = true) : Holds cfg := by
   simp only [goodB, Bool.and_eq_true] at h
-  exact ⟨holdsStore_of_good cfg h.1, holdsS_of cfg (holdsStore_of_good cfg h.1) h.2⟩
+  exact ⟨holdsStore_of_good cfg h.1.1, holdsS_of cfg (holdsStore_of_good cfg h.1.1) h.1.2, h.2⟩
 
 /-- what remains proved whatever the facts are: the conditional agreement of keys -/
 def Partial (cfg : Cfg) : Prop :=
@@ -315,8 +336,6 @@ theorem refutes_of_storeFindings (cfg : Cfg) (h : storeFindings cfg ≠ []) : ¬
 
 /-- the four steps of `GetOrBuildBucket` for field `a`, back to back (a sequential first query) -/
 def buildA : List MOp := [.beginBuild [.field "a"], .snapshot [.field "a"], .build [.field "a"], .drain [.field "a"]]
-def qA1 : Query := qKey (.mk false [leaf [.field "a"] .eq (.i64 1)] [])
-def recA (k : String) (v : Int) : Rec := rec k (body [("a", .int v)]) 1
 
 /-- (finding id, history, query): one per mutation kind that might not reach a built bucket, and one
     for a mutation that falls between snapshot and build.  None fails under the facts of the tree. -/
@@ -342,15 +361,18 @@ theorem refutes_of_trackFindings (cfg : Cfg) (h : trackFindings cfg ≠ []) : ¬
   obtain ⟨w, hw⟩ := List.exists_mem_of_ne_nil _ this
   exact refutes_of_witnessS cfg w.2.1 w.2.2 (List.mem_filter.mp hw).2
 
-def findings (cfg : Cfg) : List String := storeFindings cfg ++ trackFindings cfg
+def findings (cfg : Cfg) : List String :=
+  storeFindings cfg ++ trackFindings cfg ++ (if !saveWitnessOk cfg then ["C08-bucket-notified-before-add"] else [])
 
 theorem refutes_of_findings (cfg : Cfg) (h : findings cfg ≠ []) : ¬ Holds cfg := by
   intro hh
   unfold findings at h
   by_cases hs : storeFindings cfg = []
   · by_cases ht : trackFindings cfg = []
-    · simp [hs, ht] at h
-    · exact refutes_of_trackFindings cfg ht hh.2
+    · by_cases hv : saveWitnessOk cfg = true
+      · simp [hs, ht, hv] at h
+      · exact hv hh.2.2
+    · exact refutes_of_trackFindings cfg ht hh.2.1
   · exact refutes_of_storeFindings cfg hs hh.1
 
 /-- the facts of the tree before the five `fix:` commits on the accelerated route -/
@@ -360,7 +382,7 @@ def beforeFix : Cfg := {
   pagedQueriesBypass := false, bucketChecksAttr := false, lookupInDedupes := true, unionDedupes := true,
   bucketWindowTimeOnly := false,
   bucketNotifyInsert := true, bucketNotifyUpdate := true, bucketNotifyDelete := true, bucketPendingReplayed := true,
-  readerDrainsInFlight := false }
+  readerDrainsInFlight := false, bucketNotifyAfterAdd := true }
 
 /-- the facts of the tree as of this writing: special paths are not hinted, paged queries take the
     index walk, labelled filters are evaluated whole on the candidates, time-ordered candidates must
@@ -436,6 +458,7 @@ example : findings { repaired with bucketNotifyDelete := false } = ["C08-bucket-
 example : findings { repaired with bucketPendingReplayed := false } =
     ["C08-bucket-build-drops-pending", "C08-bucket-served-before-drain"] := by decide
 example : findings { repaired with readerDrainsInFlight := false } = ["C08-bucket-served-before-drain"] := by decide
+example : findings { repaired with bucketNotifyAfterAdd := false } = ["C08-bucket-notified-before-add"] := by decide
 
 /-- Closed witness: were an update of an existing key not passed on, a record whose field moved from 1
     to 2 after the bucket was built would still be served for `a = 1`. -/
@@ -523,9 +546,13 @@ structure Facts where
   bucketNotifyDelete : Tri
   bucketPendingReplayed : Tri
   readerDrainsInFlight : Tri
+  bucketNotifyAfterAdd : Tri
   /-- `GetOrBuildBucket` publishes the bucket in flight, then snapshots, builds, drains; `OnInsert` /
       `OnUpdate` / `OnDelete` buffer while in flight and apply otherwise -/
   bucketLifecycleStandard : Tri
+  /-- `applyTimeRange` (bucket route) and `findTimeRangeBounds` (scan route) convert the window bounds
+      to int64 nanoseconds the same way (both through `WindowNanos`, or both by a bare `UnixNano()`) -/
+  windowConversionAlike : Tri
   deriving Repr
 
 def cfgOf (f : Facts) : Cfg := {
@@ -538,7 +565,7 @@ def cfgOf (f : Facts) : Cfg := {
   bucketWindowTimeOnly := f.bucketWindowTimeOnly.isYes,
   bucketNotifyInsert := f.bucketNotifyInsert.isYes, bucketNotifyUpdate := f.bucketNotifyUpdate.isYes,
   bucketNotifyDelete := f.bucketNotifyDelete.isYes, bucketPendingReplayed := f.bucketPendingReplayed.isYes,
-  readerDrainsInFlight := f.readerDrainsInFlight.isYes }
+  readerDrainsInFlight := f.readerDrainsInFlight.isYes, bucketNotifyAfterAdd := f.bucketNotifyAfterAdd.isYes }
 
 def unknownFact (f : Facts) : Option String :=
   if f.indexableOps.isNone then some "indexableHint operators" else
@@ -551,7 +578,8 @@ def unknownFact (f : Facts) : Option String :=
       f.scanPagingAfterFilter, f.labelReattach, f.pagedQueriesBypass, f.bucketChecksAttr, f.lookupInDedupes, f.unionDedupes,
       f.bucketWindowTimeOnly].any (· == .unknown) then some "a fact of GetByIndexStream / bucket_exec / bucket" else
   if !f.bucketLifecycleStandard.isYes then some "GetOrBuildBucket / OnInsert / OnUpdate / OnDelete shape" else
-  if [f.bucketNotifyInsert, f.bucketNotifyUpdate, f.bucketNotifyDelete, f.bucketPendingReplayed, f.readerDrainsInFlight].any (· == .unknown) then
+  if !f.windowConversionAlike.isYes then some "window bound conversion of applyTimeRange vs findTimeRangeBounds" else
+  if [f.bucketNotifyInsert, f.bucketNotifyUpdate, f.bucketNotifyDelete, f.bucketPendingReplayed, f.readerDrainsInFlight, f.bucketNotifyAfterAdd].any (· == .unknown) then
     some "a bucket notification of SaveFunction / deleteHandler / DrainPending" else
   none
 
